@@ -22,7 +22,7 @@ BUDGET = {'quick': 240, 'thorough': 3000}
 
 
 def shards(tier):
-    return e1.std_shards(tier)
+    return e1.std_shards(tier, with_p=True)
 
 
 def check_case(case, ctr):
@@ -43,6 +43,9 @@ def check_case(case, ctr):
         ctr['calls'] += 2
         u = [pos(x) for x in c.upper_neighbors]
         l = [pos(x) for x in c.lower_neighbors]
+        if [pos(x) for x in c.upper_neighbors] != u or [pos(x) for x in c.lower_neighbors] != l \
+                or len(list(c.upper_neighbors)) != len(u) or len(list(c.lower_neighbors)) != len(l):
+            bad('neighbors-re-readable', [u, l], 'a second read gives something else', concept=k)
         ups[k], lows[k] = u, l
         eu, el = ref.upper_covers(k), ref.lower_covers(k)
         if None in u or len(u) != len(set(u)) or set(u) != set(eu):
@@ -59,7 +62,10 @@ def check_case(case, ctr):
             if d is not None and k not in ups.get(d, ()):
                 bad('converse', None, [d, k])
     # Context.neighbors
-    for arg in arg_sets(case.n):
+    args = arg_sets(case.n)
+    if case.n > 20:      # wide tables: empty set, singletons at the word boundaries, full set
+        args = [a for a in args if len(a) <= 1 or len(a) == case.n][:40]
+    for arg in args:
         q = [case.objs[i] for i in arg]
         e = ref.closure_objs(arg)
         k = ref.index_of_extent(e)
@@ -78,7 +84,7 @@ def check_case(case, ctr):
             bad('context-neighbors-raw', sorted(gotset), sorted(rawset), query=q)
             break
     # clause counter: a candidate closure swallowed a not-yet-tried object
-    for e, _ in ref.concepts:
+    for e, _ in (ref.concepts if case.n <= 20 else ()):
         rest = [g for g in range(case.n) if g not in e]
         for g in rest:
             cl = ref.closure_objs(set(e) | {g})
@@ -92,7 +98,8 @@ def check_case(case, ctr):
 
 
 def run_shard(shard, tier):
-    return e1.run_shard_generic(shard, tier, ID, check_case, variants=('pickle', 'fromdict-raw'))
+    return e1.run_shard_generic(shard, tier, ID, check_case, variants=('pickle', 'fromdict-raw'),
+                                both_labelings=shard[0] != 'P')
 
 
 def main(tier):
